@@ -116,3 +116,69 @@ Theorem deco_made_trivial :
 Proof. exact RenderConserve.deco_made_trivial. Qed.
 Print Assumptions deco_made_trivial.
 
+
+(* ---------- DOM level (Proofs/DomRel.v): the document characters of the render tree are the visible characters of the DOM ----------
+   dom_visible = text nodes and alt texts of images with a src, outside the skipped elements; dom_regular excludes exactly the recorded
+   losses (loose text in ol/dl/table parts, tfoot/caption) and table elements outside a table; doc_plain: nothing hidden by CSS, no
+   digits-only <sup>. *)
+From H2T Require Import Sub Css Dom Render Api CssParse Proofs.WrapInv Proofs.RenderWidth Proofs.Conserve Proofs.Footnotes Proofs.RenderConserve Proofs.OptionRel Proofs.Compose Proofs.FragStream Proofs.SimRel Proofs.Prune Proofs.DomRel.
+Theorem c03_dom_visible :
+  forall (inline_styles : list (text * text) -> res (list styledecl))
+         (doc_rules : list node -> res (list ruleset)) (c : config) (doc : list node) 
+         (tree : rnode),
+       dom_regular doc = true ->
+       doc_plain inline_styles doc_rules c doc = true ->
+       to_render_tree inline_styles doc_rules c doc = Ok tree -> leaf_stream tree = dom_visible doc.
+Proof. exact DomRel.c03_dom_visible. Qed.
+Print Assumptions c03_dom_visible.
+
+Theorem c03_dom_doc_stream :
+  forall (inline_styles : list (text * text) -> res (list styledecl))
+         (doc_rules : list node -> res (list ruleset)) (c : config) (doc : list node) 
+         (tree : rnode),
+       deco_made (c_deco c) ->
+       dom_regular doc = true ->
+       doc_plain inline_styles doc_rules c doc = true ->
+       to_render_tree inline_styles doc_rules c doc = Ok tree -> doc_stream (c_deco c) tree = dom_visible doc.
+Proof. exact DomRel.c03_dom_doc_stream. Qed.
+Print Assumptions c03_dom_doc_stream.
+
+Theorem c03_dom_string :
+  forall (inline_styles : list (text * text) -> res (list styledecl))
+         (doc_rules : list node -> res (list ruleset)) (c : config) (doc : list node) 
+         (width : N) (t : text),
+       deco_made (c_deco c) ->
+       dom_regular doc = true ->
+       dom_ntab doc = true ->
+       doc_plain inline_styles doc_rules c doc = true ->
+       string_from_read inline_styles doc_rules c doc width = Ok t -> filter docp t = dom_visible doc.
+Proof. exact DomRel.c03_dom_string. Qed.
+Print Assumptions c03_dom_string.
+
+Theorem c03_dom_lines :
+  forall (inline_styles : list (text * text) -> res (list styledecl))
+         (doc_rules : list node -> res (list ruleset)) (c : config) (doc : list node) 
+         (width : N) (tls : list tline),
+       deco_made (c_deco c) ->
+       dom_regular doc = true ->
+       dom_ntab doc = true ->
+       doc_plain inline_styles doc_rules c doc = true ->
+       lines_from_read inline_styles doc_rules c doc width = Ok tls ->
+       filter docp (flat_map tl_string tls) = dom_visible doc.
+Proof. exact DomRel.c03_dom_lines. Qed.
+Print Assumptions c03_dom_lines.
+
+Theorem c03_dom_string_syntactic :
+  forall (inline_styles : list (text * text) -> res (list styledecl))
+         (doc_rules : list node -> res (list ruleset)) (c : config) (doc : list node) 
+         (width : N) (t : text),
+       deco_made (c_deco c) ->
+       c_use_doc_css c = false ->
+       sheet_no_hide (c_sd c) = true ->
+       dom_regular doc = true ->
+       dom_ntab doc = true ->
+       dom_nsd doc = true ->
+       string_from_read inline_styles doc_rules c doc width = Ok t -> filter docp t = dom_visible doc.
+Proof. exact DomRel.c03_dom_string_syntactic. Qed.
+Print Assumptions c03_dom_string_syntactic.
+
